@@ -26,6 +26,8 @@ import (
 	"sort"
 	"strings"
 	"sync"
+
+	"github.com/openconfig/gnmi/verifhook"
 )
 
 type branch map[string]*Tree
@@ -179,6 +181,7 @@ func (t *Tree) intermediateAdd(path []string, value interface{}) error {
 		// Tree.
 		t.mu.RUnlock()
 		readerLocked = false
+		verifhook.Point("ctree.add.upgrade", value)
 		defer t.mu.Unlock()
 		t.mu.Lock()
 		return t.slowAdd(path, value)
